@@ -46,6 +46,12 @@ var c20Fragments = []string{
 	`{{ (a + b) * c }}`,
 	`{{ isset(a.b[0]) }}`,
 	`{{ 'c' }}{{ 1.5 }}{{ "q" }}`,
+	// clauses outside their construct: whatever the parser accepts, Walk must handle
+	`{{ catch }}a{{ end }}`,
+	`{{ if a }}{{ catch e }}a{{ end }}{{ end }}`,
+	`{{ if a }}x{{ else }}y{{ else }}z{{ end }}`,
+	`{{ if a }}{{ content }}{{ end }}`,
+	`{{ range s }}{{ content }}{{ end }}`,
 }
 
 // c20Children is the reference: the direct child nodes of n, from the AST's exported
@@ -221,7 +227,8 @@ func H_C20_walk() {
 	set := jet.NewSet(l)
 	t, err := set.Parse("/t.jet", src)
 	if err != nil {
-		vfAssert(false, "fragment parses")
+		// the last five fragments are structural mistakes the parser may reject
+		vfAssert(a >= len(c20Fragments)-5 || b >= len(c20Fragments)-5, "fragment parses")
 		return
 	}
 	v := &c20Visitor{budget: 5000}
